@@ -16,11 +16,21 @@ Abstract tree
             'props': [prop, ...], 'secs': [sec, ...], 'name_last': bool}
     prop = {'name': str|None, 'attrs': [(tag, text), ...], 'id': idspec, 'values': [val, ...], 'name_last': bool}
     val  = {'text': str|None, 'attrs': [(tag, text), ...]}
-    idspec = None (no id element) | str
+    idspec = None (no id element) | text
     tag '#comment' is an XML comment (XML printer only, ignored by the other printers and by the model).
+
+Every `text` above (value content, attribute content, id) is
+    str                       a string (the JSON / YAML printers emit a string, the XML printer the text), or
+    {'n': <json scalar>}      a NATIVE JSON / YAML scalar: int, float, true / false, null, a (nested) list, or
+    {'n': {'date': iso}}, {'n': {'datetime': 'Y-m-d H:M:S'}}    a native YAML date / timestamp (JSON: ISO text).
+The XML printer writes the spelling of the scalar (0 -> '0', 0.0 -> '0.0', false -> 'False' as the 1.0 library
+wrote it, date -> ISO); a native null is an UNSET entry: the XML printer leaves the element out (value content:
+empty element). The three printers therefore describe the same abstract 1.0 document, and the contract demands
+the statement's content from each of them and, on top, the same 1.1 content from all three ("formats-agree").
 """
 from __future__ import annotations
 
+import datetime as dt
 import hashlib
 import io
 import itertools
@@ -76,6 +86,146 @@ def D(secs=(), attrs=(('author', 'me'), ('date', '2008-07-07'), ('version', 'v1.
 
 
 # ---------------------------------------------------------------------------------------------
+# native JSON / YAML scalars in text positions
+# ---------------------------------------------------------------------------------------------
+
+def N(x):
+    """A native (non-string) JSON / YAML scalar."""
+    return {'n': x}
+
+
+def ND(iso):
+    return {'n': {'date': iso}}
+
+
+def NDT(text):
+    return {'n': {'datetime': text}}
+
+
+NULL = N(None)
+DT_FORMAT = '%Y-%m-%d %H:%M:%S'
+
+
+def is_nat(x):
+    return isinstance(x, dict)
+
+
+def nat(x):
+    """The Python object a YAML loader hands out for a native scalar."""
+    n = x['n']
+    if isinstance(n, dict):
+        if 'date' in n:
+            return dt.date.fromisoformat(n['date'])
+        return dt.datetime.strptime(n['datetime'], DT_FORMAT)
+    return n
+
+
+def absent(x):
+    """No content at this position: no element / key at all, or a key holding null."""
+    return x is None or (is_nat(x) and x['n'] is None)
+
+
+def kind(x):
+    """Stable label of what sits in a text position."""
+    if x is None:
+        return 'absent'
+    if isinstance(x, str):
+        return 'string' if x else 'empty-string'
+    n = nat(x)
+    if n is None:
+        return 'native-null'
+    if isinstance(n, bool):
+        return 'native-bool-true' if n else 'native-bool-false'
+    if isinstance(n, int):
+        return 'native-int-zero' if n == 0 else ('native-int-negative' if n < 0 else 'native-int')
+    if isinstance(n, float):
+        return 'native-float-zero' if n == 0 else ('native-float-negative' if n < 0 else 'native-float')
+    if isinstance(n, list):
+        return 'native-list'
+    if isinstance(n, dt.datetime):
+        return 'native-datetime'
+    if isinstance(n, dt.date):
+        return 'native-date'
+    return 'native-other'
+
+
+def spell(x):
+    """The text spelling of a text position (what a 1.0 XML file holds for it)."""
+    if x is None:
+        return ''
+    if isinstance(x, str):
+        return x
+    n = nat(x)
+    if n is None:
+        return ''
+    if isinstance(n, bool):
+        return 'True' if n else 'False'
+    if isinstance(n, float):
+        return repr(n)
+    if isinstance(n, int):
+        return str(n)
+    if isinstance(n, list):
+        return json.dumps(n)
+    if isinstance(n, dt.datetime):
+        return n.strftime(DT_FORMAT)
+    return n.isoformat()
+
+
+def spellings(x):
+    """All spellings a log entry may use for a text position."""
+    if isinstance(x, str):
+        return {x}
+    n = nat(x)
+    out = {spell(x), str(n)}
+    try:
+        out.add(json.dumps(n))
+    except TypeError:
+        pass
+    return out
+
+
+def same_scalar(e, got):
+    """Does the 1.1 object `got` (str / number / bool / date from the loaded document) carry the content of
+    the abstract text position `e`? Strings must be equal; a native scalar is kept when `got` is that
+    scalar or any text spelling of it (0 ~ '0', 0.0 ~ '0.0' ~ '0', false ~ 'False' ~ 'false')."""
+    if isinstance(e, str):
+        return isinstance(got, str) and got == e
+    n = nat(e)
+    if isinstance(n, bool):
+        if isinstance(got, bool):
+            return got == n
+        return isinstance(got, str) and got.strip().lower() == str(n).lower()
+    if isinstance(n, (int, float)):
+        if isinstance(got, bool):
+            return False
+        if isinstance(got, (int, float)):
+            return got == n
+        if isinstance(got, str):
+            try:
+                return (int(got) if isinstance(n, int) else float(got)) == n
+            except ValueError:
+                try:
+                    return float(got) == n
+                except ValueError:
+                    return False
+        return False
+    if isinstance(n, (dt.date, dt.datetime)):
+        if isinstance(got, str):
+            return got.strip() in (spell(e), n.isoformat(), str(n))
+        return got == n
+    return False
+
+
+def same_abs(a, b):
+    """Two abstract text positions with the same content."""
+    if isinstance(a, str) and isinstance(b, str):
+        return a == b
+    if is_nat(a):
+        return same_scalar(a, spell(b) if is_nat(b) else b)
+    return same_scalar(b, a)
+
+
+# ---------------------------------------------------------------------------------------------
 # printers (1.0 XML / JSON / YAML), independent of the library
 # ---------------------------------------------------------------------------------------------
 
@@ -86,11 +236,13 @@ def _esc(s):
 def _x_el(tag, text):
     if tag == '#comment':
         return '<!--%s-->' % text
-    return '<%s>%s</%s>' % (tag, _esc(text), tag)
+    if absent(text):
+        return ''                # an unset entry has no element
+    return '<%s>%s</%s>' % (tag, _esc(spell(text)), tag)
 
 
 def _x_val(v):
-    return '<value>%s%s</value>' % (_esc(v['text'] or ''), ''.join(_x_el(t, x) for t, x in v['attrs']))
+    return '<value>%s%s</value>' % (_esc(spell(v['text'])), ''.join(_x_el(t, x) for t, x in v['attrs']))
 
 
 def _x_prop(p):
@@ -124,69 +276,91 @@ def to_xml(doc, decl=XML_DECL):
     return '%s<odML version="1">%s</odML>\n' % (decl, ''.join(body))
 
 
-def _d_attrs(d, attrs, val_level=False):
+def _n(x, fmt):
+    """What the dict based source holds at a text position."""
+    if not is_nat(x):
+        return x
+    n = nat(x)
+    if isinstance(n, (dt.date, dt.datetime)) and fmt != 'YAML':
+        return spell(x)          # JSON has no date scalar
+    return n
+
+
+def _d_attrs(d, attrs, fmt, val_level=False):
     for t, x in attrs:
         if t == '#comment':
             continue
         if val_level and t == 'type':
             t = 'dtype'              # the 1.0 dict based formats call the value data type 'dtype'
         if t not in d:
-            d[t] = x
+            d[t] = _n(x, fmt)
 
 
-def _d_val(v):
+def _d_val(v, fmt):
     d = {}
     if v['text'] is not None:
-        d['value'] = v['text']
-    _d_attrs(d, v['attrs'], val_level=True)
+        d['value'] = _n(v['text'], fmt)
+    _d_attrs(d, v['attrs'], fmt, val_level=True)
     return d
 
 
-def _d_prop(p):
+def _d_prop(p, fmt):
     d = {}
     if p['name'] is not None and not p.get('name_last'):
         d['name'] = p['name']
-    _d_attrs(d, p['attrs'])
+    _d_attrs(d, p['attrs'], fmt)
     if p['values']:
-        d['values'] = [_d_val(v) for v in p['values']]
+        d['values'] = [_d_val(v, fmt) for v in p['values']]
     if p['id'] is not None:
-        d['id'] = p['id']
+        d['id'] = _n(p['id'], fmt)
     if p['name'] is not None and p.get('name_last'):
         d['name'] = p['name']
     return d
 
 
-def _d_sec(s):
+def _d_sec(s, fmt):
     d = {}
     if s['name'] is not None and not s.get('name_last'):
         d['name'] = s['name']
     d['type'] = s['type']
-    _d_attrs(d, s['attrs'])
+    _d_attrs(d, s['attrs'], fmt)
     if s['id'] is not None:
-        d['id'] = s['id']
+        d['id'] = _n(s['id'], fmt)
     if s['props']:
-        d['properties'] = [_d_prop(p) for p in s['props']]
-    d['sections'] = [_d_sec(c) for c in s['secs']]
+        d['properties'] = [_d_prop(p, fmt) for p in s['props']]
+    d['sections'] = [_d_sec(c, fmt) for c in s['secs']]
     if s['name'] is not None and s.get('name_last'):
         d['name'] = s['name']
     return d
 
 
-def to_dict(doc):
+def _reorder(obj, order):
+    """The same mapping with its keys in another order (key order carries no meaning in JSON / YAML)."""
+    if isinstance(obj, list):
+        return [_reorder(x, order) for x in obj]
+    if isinstance(obj, dict):
+        keys = sorted(obj, reverse=(order == 'reversed'))
+        return {k: _reorder(obj[k], order) for k in keys}
+    return obj
+
+
+def to_dict(doc, fmt='JSON', order=None):
     d = {}
-    _d_attrs(d, doc['attrs'])
+    _d_attrs(d, doc['attrs'], fmt)
     if doc['id'] is not None:
-        d['id'] = doc['id']
-    d['sections'] = [_d_sec(s) for s in doc['secs']]
-    return {'Document': d, 'odml-version': '1'}
+        d['id'] = _n(doc['id'], fmt)
+    d['sections'] = [_d_sec(s, fmt) for s in doc['secs']]
+    out = {'Document': d, 'odml-version': '1'}
+    return _reorder(out, order) if order else out
 
 
-def to_json(doc):
-    return json.dumps(to_dict(doc), indent=1)
+def to_json(doc, order=None):
+    return json.dumps(to_dict(doc, 'JSON', order), indent=1, ensure_ascii=False)
 
 
-def to_yaml(doc):
-    return yaml.safe_dump(to_dict(doc), default_flow_style=False, sort_keys=False)
+def to_yaml(doc, order=None):
+    return yaml.safe_dump(to_dict(doc, 'YAML', order), default_flow_style=False, sort_keys=False,
+                          allow_unicode=True)
 
 
 PRINTERS = {'XML': (to_xml, '.xml'), 'JSON': (to_json, '.json'), 'YAML': (to_yaml, '.yaml')}
